@@ -30,7 +30,7 @@ REQUIRED_OBS = ["expiry_during_connected_notification", "full_buffer_flushed_aft
 BUDGET = {"quick": 100, "thorough": 1500}
 
 CAP = 10
-POLS = ["short", "conn", "idem", "long", "zero", "neg"]
+POLS = ["short", "conn", "idem", "long", "zero", "neg", "hour"]
 
 
 def gen_script(rnd):
@@ -42,7 +42,8 @@ def gen_script(rnd):
                 ops.append(["send", rnd.choice(S.KINDS), rnd.choice(POLS),
                             rnd.choice(["inline", "inline", "hdr"])])
             else:
-                ops.append(["adv", rnd.choice([0.1, 0.5, 0.49, 1.0, 1.01, 3, 29, 31, 60, 121])])
+                ops.append(["adv", rnd.choice([0.1, 0.5, 0.49, 1.0, 1.01, 3, 29, 31, 60, 121,
+                                               400, 3599, 3601])])
         ops.append(["net_default", "accept", 0.0])
         ops.append(["adv", rnd.choice([2.1, 4.0])])
         ops.append(["q"])
@@ -81,6 +82,12 @@ def directed():
                    + [["send", "zone_ctrl", "long", "inline"],
                       ["net_default", "accept", 0.0], ["adv", 2.5], ["q"],
                       ["send", "ac_ctrl", pol, "inline"], ["q"]])
+    # messages that may wait an hour, and an outage of many minutes
+    for wait in (400.0, 3599.0, 3601.0):
+        out.append([["net_default", "refuse", 0.0]]
+                   + [["send", S.KINDS[i % 3], "hour", "inline"] for i in range(10)]
+                   + [["adv", wait], ["send", "zone_ctrl", "hour", "inline"],
+                      ["net_default", "accept", 0.0], ["adv", 2.5], ["q"]])
     # not open
     out.append([["close"], ["send", "zone_ctrl", "idem", "inline"],
                 ["send", "ac_ctrl", "long", "hdr"], ["open"], ["adv", 1.0],
